@@ -82,7 +82,7 @@ func runC11(c c11Case, rng *rand.Rand, r *rep.Report) (key, msg string, stats ma
 					time.Sleep(time.Millisecond)
 				})
 			}})
-			defer w.Shutdown()
+			defer w.Finish()
 			cfg := rig.ClientCfg{Rev: c.Rev, Transport: "polling", JSONP: c.JSONP, J: "1", B64: c.JSONP && c.Rev == 3}
 			cl, err := w.Connect(cfg)
 			rig.Wait()
